@@ -1,6 +1,6 @@
 (* Properties_C01.v — the theorems that decide property C01 on the model, each stated in full and closed by
    `exact <lemma>`; the lemmas live in the Proofs_*.v files.  Nothing else belongs in this file. *)
-From Theo Require Import Base Tokens MacroExtract Parser VMModel VMSpec VMStatements RefSem SemStatements Proofs_Sem.
+From Theo Require Import Base Tokens Errors MacroExtract Parser VMModel VMSpec VMStatements GenModel Compile RefSem SemStatements Proofs_Sem C01Statements C01Stages RefSemChk Proofs_C01s2a Proofs_C01s2 C01Stages3 Proofs_C01s3.
 Local Open Scope Z_scope.
 
 
@@ -43,3 +43,39 @@ Print Assumptions C01_straightline_partial.
 Theorem C01_straightline_needs_lexable_names : ~ C01_straightline_stmt.
 Proof. exact C01_straightline_refuted. Qed.
 Print Assumptions C01_straightline_needs_lexable_names.
+
+Theorem C01_chk_is_run :
+  forall rs fuel ctx k a pc steps trace o,
+    run_chk rs fuel ctx k a pc steps trace = o -> o <> OBad -> run rs fuel ctx k a pc steps trace = o.
+Proof. exact C01_chk_is_run_proof. Qed.
+Print Assumptions C01_chk_is_run.
+
+Theorem C01_structured :
+  forall root r rs fuel rviews steps trace,
+    structured root = true -> lexable_names root = true ->
+    gen true [] (Some root) = Ok r -> gr_ok r = true ->
+    abstract_source (Some root) = Some rs ->
+    run_ref_chk fuel rs = OStop rviews steps trace ->
+    sim_conclusion r rviews steps.
+Proof. exact C01_structured_proof. Qed.
+Print Assumptions C01_structured.
+
+Theorem C01_jumps :
+  forall root r rs fuel rviews steps trace,
+    jumps root = true -> lexable_names root = true ->
+    gen true [] (Some root) = Ok r -> gr_ok r = true ->
+    abstract_source (Some root) = Some rs ->
+    run_ref_chk fuel rs = OStop rviews steps trace ->
+    sim_conclusion r rviews steps.
+Proof. exact C01_jumps_proof. Qed.
+Print Assumptions C01_jumps.
+
+Theorem C01_jumps_budget :
+  forall root r rs n s,
+    jumps root = true -> lexable_names root = true ->
+    gen true [] (Some root) = Ok r -> gr_ok r = true ->
+    abstract_source (Some root) = Some rs ->
+    run_ref_chk n rs = OFuel ->
+    vm_run n (init (gr_prog r)) = Ok s -> isDone s = Ok false.
+Proof. exact C01_jumps_budget_proof. Qed.
+Print Assumptions C01_jumps_budget.
